@@ -144,6 +144,8 @@ def kani_cmd(unit, h, tgt, out_json, playback=False, unwindset=None):
         cmd += ['--features', unit.u['features']]
     if playback:
         cmd += ['-Z', 'concrete-playback', '--concrete-playback=print']
+    if os.environ.get('VERIF_VERBOSE'):
+        cmd += ['--verbose']
     if not h.get('memsafe'):
         # CBMC's raw-pointer checks are not the subject of any property (safe Rust; Rust's own
         # bounds/overflow/unwrap panics stay on as assertions) and triple symbolic-execution time
@@ -301,6 +303,10 @@ def parse_result(h, rc, out_json, logf):
     res['functions'] = sorted(fnset)
     res['failed'] = failed
     status = r.get('status', '')
+    if 'CBMC failed with status' in logtxt:
+        m = re.search(r'CBMC failed with status (\d+)', logtxt)
+        res['reason'] = 'CBMC aborted (status %s: internal error or out of memory)' % (m.group(1) if m else '?')
+        return res
     if 'Status: ERROR' in logtxt or 'CBMC failed' in logtxt or 'out of memory' in logtxt.lower() or 'std::bad_alloc' in logtxt:
         res['reason'] = 'solver error / out of memory'
         return res
